@@ -3,6 +3,19 @@ import driver
 from driver import Check, ToolError, log
 
 
+def c13(ck):
+    ck.rule = ("every string of length <= 3 (thorough 4) over {a, B, space, LF, tab, comma, <, e-acute, U+0301, emoji} x every filter "
+               "link: 11 argument-free filters; append/prepend/remove/remove_first/split/default x every argument string of length "
+               "<= 1 (2); replace/replace_first x search x 3 replacements; truncate/truncatewords x [-6, 8] x 4 ellipses; slice x "
+               "[-6, 8] x 6 lengths and with default length; join over arrays of <= 3 one-character strings x 4 separators; every "
+               "chain of 2 (3) links from 15 over inputs of length <= 2; non-trivial = non-empty input")
+    ck.assumptions = ["characters are Unicode scalar values; truncate counts grapheme clusters as the filter documents",
+                      "where the property is silent (empty search/separator, truncatewords on text not separated by single spaces) only totality is required",
+                      "a negative truncate limit never truncates (pinned by the repository's unit tests)"]
+    ck.replay_stage("strings", "MC_C13", "MC_C13_quick.cfg" if ck.tier == "quick" else "MC_C13_thorough.cfg",
+                    tlc_workers=8 if ck.tier == "quick" else 12, harness_workers=6, timeout=3400)
+
+
 def c18(ck):
     ck.rule = ("every operation sequence over {PushPlain d, PushSandbox d, PushGlobal, Pop, SetGlobal k v, SetIndex k v} "
                "from every one of the 9 base maps up to the stated length is one TLC state and one replay record; "
@@ -161,7 +174,7 @@ def c20(ck):
     ck.trace_stage("realthreads", ["threads", "--runs", runs], "Trace_Threads", "Trace_Threads.cfg", heap="8g", timeout=3000)
 
 
-PROPS = {"C03": c03, "C04": c04, "C06": c06, "C07": c07, "C08": c08, "C09": c09, "C10": c10, "C19": c19, "C20": c20, "C05": c05, "C18": c18}
+PROPS = {"C03": c03, "C04": c04, "C06": c06, "C07": c07, "C08": c08, "C09": c09, "C10": c10, "C13": c13, "C19": c19, "C20": c20, "C05": c05, "C18": c18}
 
 
 def replay_file(prop, path):
